@@ -354,9 +354,10 @@ def engine_var(c, name, n=1, *args, **kwargs):
         a = mk_scalar("abs", "sc", f(ZERO))
         a.buf.sct = ONE
         a.buf.is_var = True
-        return a
-    a = mk_vec(c.dialect, kind, nn, lambda i: f(i), "fresh")
-    a.buf.is_var = True
+    else:
+        a = mk_vec(c.dialect, kind, nn, lambda i: f(i), "fresh")
+        a.buf.is_var = True
+    cur().events.append({"what": "var", "arr": A.freeze(a), "name": name, "n": nn})
     return a
 
 
